@@ -70,9 +70,12 @@ class KindDomain:
 
 
 class KindAnalysis:
-    def __init__(self, pm: ParserModel, dom: KindDomain, paths: Iterable[Tuple[str, ...]] = (), killers: Optional[Set[str]] = None):
+    def __init__(self, pm: ParserModel, dom: KindDomain, paths: Iterable[Tuple[str, ...]] = (), killers: Optional[Set[str]] = None,
+                 field_kinds: Optional[Dict[str, FrozenSet[str]]] = None):
         self.pm = pm
         self.dom = dom
+        # attribute name -> kinds, from the field annotations of the classes that declare it
+        self.field_kinds = field_kinds or {}
         # tracked access paths besides local names, e.g. ('self','state')
         self.paths = {".".join(p) for p in paths}
         # self-methods whose call invalidates the tracked access paths
@@ -107,6 +110,8 @@ class KindAnalysis:
                 ks = self.dom.of_annotation(callee.returns)
                 if ks is not None:
                     return ks
+        if isinstance(e, ast.Attribute) and e.attr in self.field_kinds:
+            return self.field_kinds[e.attr]
         if isinstance(e, ast.IfExp):
             return self.kinds_of(fname, e.body, env) | self.kinds_of(fname, e.orelse, env)
         if isinstance(e, ast.NamedExpr):
